@@ -380,6 +380,10 @@ def regress_dispatch(here, prop, tier, seed):
         if not os.path.exists(exe):
             continue
         rc, so, se, dt = sh([exe, "regress", d], cwd=HERE, timeout=1800)
+        if rc == 2 and "usage:" in se:
+            # a binary that predates the subcommand (stale build): decides nothing
+            cov[f"regress.{variant}.unavailable"] = "binary does not know the regress subcommand"
+            continue
         m = re.search(r"REGRESS-WORKLOAD fixtures=(\d+) passed=(\d+) crate_debug_assert_trips=(\d+) failed=(\d+)", so)
         if m:
             cov[f"regress.{variant}.fixtures"] = int(m.group(1))
